@@ -69,7 +69,7 @@ PROPS = {
                 project=proj(fields=("n", "r", "m", "x", "run"), mon="*", fin=True, obs0=True)),   # everything but uses_storage_type
     "C16": dict(comps=["stream.mixed", "ctor.mixed", "hist.mixed", "fn.mixed_steps_tabulation", "fn.mixed_step_memoization"], project=proj()),
     "C17": dict(comps=["ctor.", "stream."], project=proj()),
-    "C18": dict(comps=["stream.", "val.", "inter."], project=lambda ls: [l for l in proj()(ls)]),
+    "C18": dict(comps=["stream.", "hist.", "val.", "inter."], project=lambda ls: [l for l in proj()(ls)]),
     "C19": dict(comps=["stream.periodic", "seq.periodic", "fn.mxrr_close_formula", "fn.beta"], project=proj(mon="*")),
 }
 
